@@ -113,6 +113,13 @@ class DefAssign:
             if dest is not None:
                 A = A | {dest}
             return A
+        if k == 'Call' and e.get('kind') == 'method' and (e.get('callee') or {}).get('name') in ('resize', 'reserve', 'shrink_to_fit') \
+                and str((e.get('callee') or {}).get('cls', '')).startswith('std::vector') and strip_casts(e['obj']).get('k') == 'Ref' \
+                and strip_casts(e['obj']).get('id') in self.tracked:
+            # changes the length only: the elements are neither read nor (definitely) assigned by it
+            for a in e.get('args', []):
+                A = self.expr(a, A)
+            return A
         if k == 'Call':
             cc = e.get('callee') or {}
             mut = set(cc.get('mutrefs', []))
